@@ -1,6 +1,7 @@
 package rules
 
 import (
+	"strings"
 	"fmt"
 	"go/ast"
 	"go/token"
@@ -60,26 +61,23 @@ func (c *Ctx) truncate(s *eff.Site) {
 	info := fi.Pkg.TypesInfo
 	body := fi.Decl.Body
 	fname := fi.Obj.Name()
-	// the deleted name: H[i].Name
+	// the deleted name is X[i].Name for a cell of a local slice (read directly, or through a range value variable)
 	nameArg := s.Call.Args[1]
-	sel, ok := ast.Unparen(nameArg).(*ast.SelectorExpr)
-	var cell *ast.IndexExpr
-	if ok && sel.Sel.Name == "Name" {
-		cell, _ = ast.Unparen(sel.X).(*ast.IndexExpr)
+	stD := an.StateAtExpr(s.Call)
+	nt := fn.Term(nameArg)
+	var cell *gf.Term
+	if base := fieldBase(nt, "Name"); base != nil {
+		cell = cellTermOf(stD, base)
 	}
-	if cell == nil {
-		c.Bad("C13.2-delete-target", fname+": Delete name argument", s.Call.Pos(), "the deleted revision is not `history[i].Name` of a slice cell")
+	if cell == nil || cell.A[0].K != 'v' || cell.A[0].Obj == nil {
+		c.Bad("C13.2-delete-target", fname+": Delete name argument", s.Call.Pos(), "the deleted revision is not the Name of a cell of a local slice (`history[i].Name`, or a range value over it)")
 		return
 	}
-	hID := rootIdent(cell.X)
-	if hID == nil {
-		c.Bad("C13.2-delete-target", fname+": Delete name argument", s.Call.Pos(), "no slice root")
-		return
-	}
-	H := info.ObjectOf(hID)
-	c.OK("C13.2-delete-target", fname+": Delete("+types.ExprString(nameArg)+")", s.Call.Pos(), "deletes the cell of slice "+H.Name())
+	H := cell.A[0].Obj
+	idx := cell.A[1]
+	c.OK("C13.2-delete-target", fname+": Delete("+types.ExprString(nameArg)+")", s.Call.Pos(), "deletes cell "+cell.String()+" of slice "+H.Name())
 
-	// assignments to H: make, appends, one prefix re-slice
+	// assignments to H: make, appends, at most one prefix re-slice
 	var reslice *ast.AssignStmt
 	nApp := 0
 	var liveMap types.Object
@@ -98,7 +96,9 @@ func (c *Ctx) truncate(s *eff.Site) {
 				c.Bad("C13.2-prefix", fname+": second re-slice of "+H.Name(), as.Pos(), "the deletable slice is re-sliced more than once")
 			}
 			reslice = as
-			_ = r
+			if r.Low != nil || rootIdent(r.X) == nil || info.ObjectOf(rootIdent(r.X)) != H {
+				c.Bad("C13.2-prefix", fname+": "+types.ExprString(as.Lhs[0])+" = "+types.ExprString(as.Rhs[0]), as.Pos(), "not a prefix re-slice history[:n] of the deletable slice")
+			}
 		case *ast.CallExpr:
 			fid, _ := r.Fun.(*ast.Ident)
 			if fid != nil && fid.Name == "make" {
@@ -112,7 +112,7 @@ func (c *Ctx) truncate(s *eff.Site) {
 			for _, x := range r.Args[1:] {
 				nApp++
 				name := fmt.Sprintf("%s: append(%s, %s)", fname, H.Name(), types.ExprString(x))
-				// find the live map: a map[string]bool indexed by x.Name in a dominating guard
+				// find the live map: a map[string]bool indexed by x.Name in the same loop
 				var want *gf.Formula
 				ast.Inspect(body, func(m ast.Node) bool {
 					ix, ok := m.(*ast.IndexExpr)
@@ -135,6 +135,8 @@ func (c *Ctx) truncate(s *eff.Site) {
 				}
 				c.Implies(st, want, "C13.1-not-live", name, as.Pos())
 			}
+		default:
+			c.Bad("C13.1-not-live", fname+": "+types.ExprString(as.Rhs[0]), as.Pos(), "the deletable slice is assigned by something other than make/append/prefix re-slice")
 		}
 		return true
 	})
@@ -142,43 +144,203 @@ func (c *Ctx) truncate(s *eff.Site) {
 	if liveMap != nil {
 		c.liveSet(fi, fn, liveMap)
 	}
-	// the re-slice and its guard
-	if reslice == nil {
-		c.Bad("C13.2-prefix", fname+": prefix of "+H.Name(), s.Call.Pos(), "every non-live revision is deleted: there is no prefix re-slice bounded by the history limit")
-		return
-	}
-	se := ast.Unparen(reslice.Rhs[0]).(*ast.SliceExpr)
-	name := fname + ": " + types.ExprString(reslice.Lhs[0]) + " = " + types.ExprString(reslice.Rhs[0])
 	sets := paramsOfType(fi, load.APIPkg, "StatefulSet")
-	if len(sets) != 1 || se.Low != nil || se.High == nil || rootIdent(se.X) == nil || info.ObjectOf(rootIdent(se.X)) != H {
-		c.Bad("C13.2-prefix", name, reslice.Pos(), "not a prefix re-slice history[:n] of the deletable slice")
+	if len(sets) != 1 {
+		c.Bad("C13.2-prefix", fname+": set parameter", s.Call.Pos(), "the function does not have exactly one StatefulSet parameter")
 		return
 	}
-	st := an.StateBefore(reslice)
-	limit := "int(*$1.Spec.RevisionHistoryLimit)"
-	c.Implies(st, c.Want(fn, reslice.Pos(), "len($2) > "+limit, sets[0], hID), "C13.2-only-beyond-limit", name, reslice.Pos())
-	// n == len(H) - limit: rewrite the bound by the known equalities
-	high := fn.Term(se.High)
-	wantHigh := c.WantTerm(fn, reslice.Pos(), "len($2) - "+limit, sets[0], hID)
-	c.Check(termEqualUnder(st, high, wantHigh), "C13.2-prefix-length", name, reslice.Pos(), "the prefix has length len(history) - limit (by the equalities in force)",
-		"the prefix bound is not len(history) - *spec.revisionHistoryLimit: "+high.String())
-	// the delete loop: for i := 0; i < len(H); i++ over H after the re-slice
-	loop, _ := innermostLoop(body, s.Call).(*ast.ForStmt)
-	okLoop := false
-	if loop != nil && loop.Pos() > reslice.Pos() {
-		init, _ := loop.Init.(*ast.AssignStmt)
-		post, _ := loop.Post.(*ast.IncDecStmt)
-		if init != nil && post != nil && len(init.Lhs) == 1 && post.Tok == token.INC {
-			iv := init.Lhs[0]
-			zero := fn.Term(init.Rhs[0]).Key() == gf.ConstInt(0).Key()
-			cond := fn.Formula(loop.Cond).Key() == c.Want(fn, loop.Body.Pos(), "$1 < len($2)", iv, hID).Key()
-			same := fn.Term(post.X).Key() == fn.Term(iv).Key() && fn.Term(cell.Index).Key() == fn.Term(iv).Key()
-			okLoop = zero && cond && same
+	// how many are deleted: at the Delete call the position is below (number of non-live revisions) - limit.
+	// The number of non-live revisions is len(H) where H is never re-sliced, otherwise a variable that
+	// equals len(H) right before the re-slice.
+	limit := c.WantTerm(fn, s.Call.Pos(), "int(*$1.Spec.RevisionHistoryLimit)", sets[0])
+	var totals []*gf.Term
+	if reslice == nil {
+		totals = append(totals, gf.LenOf(gf.Var(H)))
+	} else {
+		stR := an.StateBefore(reslice)
+		for _, obj := range localInts(info, body) {
+			if ok, _ := stR.Implies(gf.FEq(gf.Var(obj), gf.LenOf(gf.Var(H)))); ok {
+				totals = append(totals, gf.Var(obj))
+			}
+		}
+		// or the prefix bound itself is len(H) - limit at the re-slice
+		se := ast.Unparen(reslice.Rhs[0]).(*ast.SliceExpr)
+		if se.High != nil {
+			if ok, _ := stR.Implies(gf.FEq(fn.Term(se.High), gf.Bin("-", gf.LenOf(gf.Var(H)), limit))); ok {
+				// then idx < len(H) (after the re-slice) is the bound
+				if ok2, _ := stD.Implies(gf.FLt(idx, gf.LenOf(gf.Var(H)))); ok2 && !assignedBetween(info, body, H, reslice.End(), s.Call.Pos()) {
+					c.OK("C13.2-only-beyond-limit", fname+": deleted position", s.Call.Pos(), "the slice is cut to its first len(history) - limit cells before the delete loop, and the position stays inside it")
+					totals = nil
+					goto ordered
+				}
+			}
 		}
 	}
-	c.Check(okLoop, "C13.2-oldest-first", fname+": delete loop", s.Call.Pos(), "the loop deletes history[0], history[1], ... up to the end of the prefix", "the delete loop is not `for i := 0; i < len(history); i++` over the prefix")
+	{
+		okCount := false
+		var tried []string
+		for _, T := range totals {
+			want := gf.FLt(idx, gf.Bin("-", T, limit))
+			tried = append(tried, want.String())
+			if ok, _ := stD.Implies(want); ok {
+				okCount = true
+				c.OK("C13.2-only-beyond-limit", fname+": deleted position", s.Call.Pos(), "facts at the Delete call imply "+want.String())
+				break
+			}
+		}
+		if !okCount {
+			_, wit := stD.Implies(gf.False)
+			c.Bad("C13.2-only-beyond-limit", fname+": deleted position", s.Call.Pos(), fmt.Sprintf("the deleted position is not proven below (non-live revisions) - *spec.revisionHistoryLimit (tried %s); facts on one path: %s", strings.Join(tried, "; "), clip(wit, 500)))
+		}
+	}
+ordered:
+	// oldest first: the position ascends from 0 (an index loop from 0 with ++, or a range loop)
+	okLoop := false
+	switch loop := innermostLoop(body, s.Call).(type) {
+	case *ast.RangeStmt:
+		x := fn.Term(loop.X)
+		if x.K == 's' {
+			x = x.A[0]
+		}
+		var pos *gf.Term
+		if k, ok := loop.Key.(*ast.Ident); ok && k.Name != "_" {
+			pos = fn.Term(k)
+		} else {
+			pos = gf.Var(c.E.RangeIndex(loop))
+		}
+		okLoop = x.Key() == gf.Var(H).Key() && pos.Key() == idx.Key()
+		if lx := fn.Term(loop.X); lx.K == 's' && lx.A[1].K != 'z' {
+			okLoop = false // not a prefix
+		}
+	case *ast.ForStmt:
+		init, _ := loop.Init.(*ast.AssignStmt)
+		post, _ := loop.Post.(*ast.IncDecStmt)
+		if init != nil && post != nil && len(init.Lhs) == 1 && len(init.Rhs) == 1 && post.Tok == token.INC && loop.Cond != nil {
+			iv := init.Lhs[0]
+			zero := fn.Term(init.Rhs[0]).Key() == gf.ConstInt(0).Key()
+			same := fn.Term(post.X).Key() == fn.Term(iv).Key() && idx.Key() == fn.Term(iv).Key()
+			okLoop = zero && same && !assignedIn(info, loop.Body, info.ObjectOf(iv.(*ast.Ident)))
+		}
+	}
+	c.Check(okLoop, "C13.2-oldest-first", fname+": delete loop", s.Call.Pos(), "the loop visits history[0], history[1], ... in order", "the delete loop does not walk the non-live revisions from position 0 upwards")
+	// every iteration deletes: no path from the loop body's start back to the loop head skips the Delete call
+	c.deleteOnEveryIteration(fn, an, innermostLoop(body, s.Call), s.Call, fname)
 	// appended in the order of the (sorted) revisions parameter
 	c.sortedByCaller(fi)
+}
+
+// deleteOnEveryIteration: a later revision is never deleted while an earlier one was skipped.
+func (c *Ctx) deleteOnEveryIteration(fn *gf.Fn, an *gf.Analysis, loop ast.Stmt, call *ast.CallExpr, fname string) {
+	if loop == nil {
+		return
+	}
+	var bodyStmt *ast.BlockStmt
+	switch l := loop.(type) {
+	case *ast.RangeStmt:
+		bodyStmt = l.Body
+	case *ast.ForStmt:
+		bodyStmt = l.Body
+	}
+	if bodyStmt == nil || len(bodyStmt.List) == 0 {
+		return
+	}
+	first := bodyStmt.List[0]
+	a := fn.FromUntil(first, an.StateBefore(first), call)
+	head := loopHead(fn, loop)
+	skipped := head != nil && a.BlockReached(head)
+	c.Check(!skipped, "C13.2-no-skip", fname+": delete loop", call.Pos(), "every iteration reaches the Delete call before the next one starts", "an iteration can go on to the next revision without deleting this one: a younger revision may be deleted while an older one is kept")
+}
+
+// fieldBase strips the selection of field name (through embedded structs) from t and returns the base, or nil.
+func fieldBase(t *gf.Term, name string) *gf.Term {
+	if t == nil || t.K != 'f' || t.S != name || len(t.A) != 1 {
+		return nil
+	}
+	b := t.A[0]
+	for b.K == 'f' && len(b.A) == 1 && (b.S == "ObjectMeta" || b.S == "TypeMeta") {
+		b = b.A[0]
+	}
+	return b
+}
+
+// cellTermOf: t is a cell X[i], or a term that every disjunct of st knows equal (transitively) to a
+// cell of one and the same slice variable; returns the cell (of the first disjunct).
+func cellTermOf(st gf.State, t *gf.Term) *gf.Term {
+	if t.K == 'i' {
+		return t
+	}
+	if !st.Reachable() {
+		return nil
+	}
+	var found *gf.Term
+	for _, d := range st.D {
+		var here *gf.Term
+		for _, o := range d.EqualTerms(t) {
+			if o.K == 'i' && o.A[0].K == 'v' && (found == nil || o.A[0].Key() == found.A[0].Key()) && (here == nil || o.Key() == found.Key()) {
+				here = o
+			}
+		}
+		if here == nil {
+			return nil
+		}
+		if found == nil {
+			found = here
+		}
+	}
+	return found
+}
+
+// localInts lists the integer-typed local variables defined in body.
+func localInts(info *types.Info, body ast.Node) []types.Object {
+	var out []types.Object
+	seen := map[types.Object]bool{}
+	ast.Inspect(body, func(n ast.Node) bool {
+		if id, ok := n.(*ast.Ident); ok {
+			if v, ok := info.Defs[id].(*types.Var); ok && !seen[v] && isIntT(v.Type()) {
+				seen[v] = true
+				out = append(out, v)
+			}
+		}
+		return true
+	})
+	return out
+}
+
+// assignedBetween: obj is assigned by a statement positioned in (from, to).
+func assignedBetween(info *types.Info, body ast.Node, obj types.Object, from, to token.Pos) bool {
+	found := false
+	ast.Inspect(body, func(n ast.Node) bool {
+		if as, ok := n.(*ast.AssignStmt); ok && as.Pos() > from && as.Pos() < to {
+			for _, l := range as.Lhs {
+				if id, ok := l.(*ast.Ident); ok && info.ObjectOf(id) == obj {
+					found = true
+				}
+			}
+		}
+		return true
+	})
+	return found
+}
+
+// assignedIn: obj is assigned or stepped inside n.
+func assignedIn(info *types.Info, n ast.Node, obj types.Object) bool {
+	found := false
+	ast.Inspect(n, func(x ast.Node) bool {
+		switch s := x.(type) {
+		case *ast.AssignStmt:
+			for _, l := range s.Lhs {
+				if id, ok := l.(*ast.Ident); ok && info.ObjectOf(id) == obj {
+					found = true
+				}
+			}
+		case *ast.IncDecStmt:
+			if id, ok := s.X.(*ast.Ident); ok && info.ObjectOf(id) == obj {
+				found = true
+			}
+		}
+		return true
+	})
+	return found
 }
 
 func isBoolT(t types.Type) bool {
@@ -212,6 +374,7 @@ func (c *Ctx) liveSet(fi *load.FuncInfo, fn *gf.Fn, live types.Object) {
 			}
 		}
 	}
+	nLiveParams := 0
 	// initialisation with both revision names
 	var lit *ast.CompositeLit
 	ast.Inspect(body, func(n ast.Node) bool {
@@ -239,7 +402,15 @@ func (c *Ctx) liveSet(fi *load.FuncInfo, fn *gf.Fn, live types.Object) {
 			}
 		}
 		c.Check(found, "C13.1-live-current-and-update", fname+": live["+rp.Name+".Name]", fi.Decl.Pos(), "marked live at initialisation", "the revision parameter "+rp.Name+" is not marked live")
+		if found {
+			nLiveParams++
+		}
 	}
+	// the two revisions this reconcile computed must be handed in and marked live: a name read from the
+	// set's stored status is the previous reconcile's choice
+	c.Check(nLiveParams >= 2, "C13.1-live-set-seeded-with-computed-revisions", fname+": ControllerRevision parameters marked live", fi.Decl.Pos(),
+		"the truncation receives the current and the update revision and marks both live", "the truncation does not receive (or does not mark live) both the current and the update revision computed by this reconcile")
+	c.truncateCallers(fi, revs)
 	// every pod's revision label, unconditionally, over all pods
 	okPods := false
 	var getRev *types.Func
@@ -512,4 +683,95 @@ func (c *Ctx) dedup(fi *load.FuncInfo, fn *gf.Fn, an *gf.Analysis, app *ast.Assi
 	// the seen map is not cleared inside the loop
 	c.Check(okGuard && pass, rule+"-dedup", name, app.Pos(), "appended only after `!seen[name]` and marking seen[name] = true",
 		"the append can be reached without the not-seen test and marking (duplicates possible)")
+}
+
+// truncateCallers: every caller passes, for the ControllerRevision parameters, the first two
+// results of the revision-choosing function called in the same function.
+func (c *Ctx) truncateCallers(fi *load.FuncInfo, revs []*ast.Ident) {
+	choose := c.Func(load.CtrlPkg, "defaultStatefulSetControl.getStatefulSetRevisions")
+	if choose == nil {
+		return
+	}
+	// parameter positions
+	pos := map[int]string{}
+	i := 0
+	for _, f := range fi.Decl.Type.Params.List {
+		for _, n := range f.Names {
+			for _, rp := range revs {
+				if rp == n && types.TypeString(fi.Pkg.TypesInfo.TypeOf(n), nil) == "*k8s.io/api/apps/v1.ControllerRevision" {
+					pos[i] = n.Name
+				}
+			}
+			i++
+		}
+	}
+	n := 0
+	for _, caller := range c.P.Funcs() {
+		info := caller.Pkg.TypesInfo
+		for _, call := range callsIn(caller.Decl.Body, true) {
+			if gf.StaticCallee(info, call) != fi.Obj {
+				continue
+			}
+			n++
+			used := map[int]bool{}
+			for k, pname := range pos {
+				name := fmt.Sprintf("%s: %s(… %s …)", caller.Obj.Name(), fi.Obj.Name(), pname)
+				good := false
+				why := "argument is not a variable assigned from " + choose.Obj.Name()
+				if k < len(call.Args) {
+					if id, ok := ast.Unparen(call.Args[k]).(*ast.Ident); ok {
+						ast.Inspect(caller.Decl.Body, func(x ast.Node) bool {
+							as, ok := x.(*ast.AssignStmt)
+							if !ok || len(as.Rhs) != 1 || as.End() > call.Pos() {
+								return true
+							}
+							src, ok := ast.Unparen(as.Rhs[0]).(*ast.CallExpr)
+							if !ok || gf.StaticCallee(info, src) != choose.Obj {
+								return true
+							}
+							for li, l := range as.Lhs {
+								if lid, ok := l.(*ast.Ident); ok && info.ObjectOf(lid) == info.ObjectOf(id) && li < 2 {
+									good = !used[li]
+									used[li] = true
+									if !good {
+										why = "both revision arguments are the same result"
+									}
+								}
+							}
+							return true
+						})
+						// not reassigned in between
+						if good && assignedBetweenCalls(info, caller.Decl.Body, info.ObjectOf(id), choose.Obj, call) {
+							good, why = false, "the variable is reassigned between "+choose.Obj.Name()+" and the call"
+						}
+					}
+				}
+				c.Check(good, "C13.1-live-set-seeded-with-computed-revisions", name, call.Pos(), "the argument is a result of "+choose.Obj.Name()+" in the same reconcile", why)
+			}
+		}
+	}
+	c.Floor("C13.1-truncation-call-sites", n, 1)
+}
+
+// assignedBetweenCalls: obj is assigned by something other than a call to src before call.
+func assignedBetweenCalls(info *types.Info, body ast.Node, obj types.Object, src *types.Func, call *ast.CallExpr) bool {
+	bad := false
+	ast.Inspect(body, func(x ast.Node) bool {
+		as, ok := x.(*ast.AssignStmt)
+		if !ok || as.End() > call.Pos() {
+			return true
+		}
+		for _, l := range as.Lhs {
+			if id, ok := l.(*ast.Ident); ok && info.ObjectOf(id) == obj {
+				if len(as.Rhs) == 1 {
+					if c2, ok := ast.Unparen(as.Rhs[0]).(*ast.CallExpr); ok && gf.StaticCallee(info, c2) == src {
+						continue
+					}
+				}
+				bad = true
+			}
+		}
+		return true
+	})
+	return bad
 }
